@@ -1593,7 +1593,9 @@ class Mps(MatrixProduct):
             else:
                 tensor = tensordot(tensor, ms, ([0,-1,-2],[0,-1,-2]))
             assert xp.allclose(tensor, tensor.T.conj())
-            rdm[ims] = asnumpy(tensor)
+            # the contraction above leaves the bra (conjugated) index first.
+            # transpose so that the ket index comes first as in the definition
+            rdm[ims] = asnumpy(tensor.T)
 
         return rdm
     
@@ -1649,8 +1651,9 @@ class Mps(MatrixProduct):
                         tensor = tensordot(tensor, self[kms], ([2,3,4],[0,1,2]))
                 
                 rtensor = R_component[jms]
+                # the indices are (bra_i, ket_i, bra_j, ket_j). ket indices first as in the definition
                 res = tensordot(tensor, rtensor,
-                        ([2,3],[0,1])).transpose(0,2,1,3)
+                        ([2,3],[0,1])).transpose(1,3,0,2)
                 rdm[(ims, jms)] = asnumpy(res.reshape(res.shape[0]*res.shape[1],-1))
         return rdm
     
